@@ -10,6 +10,7 @@
 //!       drives the real objects with seeded random histories, writes an ndjson trace for TLC.
 //!   harness worker <stage> <seed> [--trace-api]     (internal)
 mod conc;
+mod gen;
 mod iso;
 mod stages;
 
@@ -17,7 +18,7 @@ use serde_json::{json, Value};
 use std::collections::{BTreeMap, HashSet};
 use std::io::{BufRead, Write};
 
-fn arg(args: &[String], name: &str) -> Option<String> {
+pub fn arg(args: &[String], name: &str) -> Option<String> {
     args.iter().position(|a| a == name).and_then(|i| args.get(i + 1).cloned())
 }
 
@@ -193,6 +194,7 @@ fn main() {
         "replay" => replay(&stage, &args, false),
         "cases" => replay(&stage, &args, true),
         "record" => stages::record(&stage, &args),
+        "gen" => gen::main(&stage, &args),
         _ => {
             eprintln!("unknown command");
             std::process::exit(2);
